@@ -58,7 +58,7 @@ class LoopScenario:
         ins = lambda rx, h: M.insert(0, (R(rx), h))
         # last resort: a call to one of hannibal's own helper functions that builds a future / closure (e.g. an async fn
         # extracted from the loop or from a restart strategy) is executed from its MIR body like everything else
-        M.append((R(r'^[a-z_][\w:]*(::<.*>)?$'), self.m_inline_helper))
+        M.append((R(r'.'), self.m_inline_helper))
         ins(r'^timeout_fut::<', self.m_inline_by_name('timeout_fut', 2))
         ins(r'^<A as actor::Actor>::started$', self.m_user_future('started'))
         ins(r'^<A as actor::Actor>::stopped$', self.m_user_future('stopped'))
@@ -149,8 +149,11 @@ class LoopScenario:
         if fn is None or fn.nargs != len(args):
             return NotImplemented
         rt = fn.ret_type or ''
-        if not ('{async' in rt or '{closure' in rt or '{coroutine' in rt or 'impl Future' in rt or 'impl futures::Future' in rt):
-            return NotImplemented       # plain helpers stay opaque at this level (their arguments are symbolic)
+        takes_notifier = any(isinstance(a, VAgg) and a.name == 'StopNotifier' for a in args)
+        in_env = fn.name.startswith('environment::')
+        if not ('{async' in rt or '{closure' in rt or '{coroutine' in rt or 'impl Future' in rt or 'impl futures::Future' in rt
+                or takes_notifier or in_env):
+            return NotImplemented       # other plain helpers stay opaque at this level (their arguments are symbolic)
         e.push_call(st, fn, args, ret_dest=t.dest, ret_bb=t.target, unwind_bb=t.unwind)
         return None
 
@@ -301,7 +304,11 @@ class LoopScenario:
             names = _coroutine_upvars(self.loop_fn)
             m = {'actor': VSym('actor0', 'A'), 'self__ctx': VSym('ctx', 'context::Context<A>'),
                  'self__stop': fields[('f', 2)], 'self__config__timeout': self.timeout,
-                 'self__config__fail_on_timeout': self.fail, 'self__payload_stream': fields[('f', 5)]}
+                 'self__config__fail_on_timeout': self.fail, 'self__payload_stream': fields[('f', 5)],
+                 # (the whole config captured instead of its two fields)
+                 'self__config': VAgg(name='EnvironmentConfig', fields={('f', 0): self.timeout, ('f', 1): self.fail},
+                                      extra={'fieldnames': ('timeout', 'fail_on_timeout')}),
+                 'timeout': self.timeout, 'fail_on_timeout': self.fail}
             fields = {}
             for i, nm in enumerate(names):
                 if nm not in m:
